@@ -80,10 +80,53 @@ def regex_sweep(ctx):
                  "nd_ranges": len(ranges)}
 
 
+def retarget_sweep(ctx, n, salt=0):
+    """a hyperlink relationship re-pointed through File.rels_element: the part then renders the link with the
+    target the relationship holds NOW (= what a fresh reader makes of the package with that relationship changed)"""
+    import archsweep
+    import engine
+    r2 = engine.sweep("archsweep", "eval_retarget", [("retarget", engine.sub_seed(ctx["seed"] + salt, i, "C10r")) for i in range(n)])
+    s2 = archsweep.summarise(ctx, r2, "", "", lambda fs: "retargeted" in fs)
+    s2["violations"] = [v for v in s2["violations"] if not v["what"].startswith("retarget_resave")]
+    return s2
+
+
 def run(ctx):
     res = _run(ctx)
     if ctx["model_ok"]:
         bad, info = regex_sweep(ctx)
         res.setdefault("corr_broken", []).extend(bad)
         res.update(info)
+    s2 = retarget_sweep(ctx, 60 if ctx["tier"] == "quick" else 1500)
+    res.setdefault("violations", []).extend(s2["violations"])
+    res.setdefault("corr_broken", []).extend(s2["corr_broken"])
+    res["retarget_cases"] = s2["feature_histogram"].get("retargeted", 0)
+    res["rule"] = res.get("rule", "") + ("; stream `retarget`: a hyperlink relationship re-pointed through File.rels_element "
+                                         "(before or after File.rels / the part were read): the rendered link carries the "
+                                         "relationship's current target")
     return res
+
+
+_search0, _replay0 = search, replay
+
+
+def search(ctx, broken, corr_broken):
+    out = _search0(ctx, broken, corr_broken)
+    return list(out) + retarget_sweep(ctx, 300, salt=1)["violations"]
+
+
+def replay(ctx, path):
+    import json
+    d = json.load(open(path))
+    if d.get("stream") == "retarget":
+        import archsweep
+        r = archsweep.eval_retarget({"model": None}, (d["stream"], d["seed"]))
+        fails = [x for x in r["fails"] if x[0] != "retarget_resave"]
+        if fails:
+            print(f"VIOLATION property=C10 replay={path}")
+            for f in fails:
+                print("  ", f)
+            return 1
+        print("replay passes")
+        return 0
+    return _replay0(ctx, path)
